@@ -263,16 +263,20 @@ func vfC05RunClientTCP(cs *vfC05Case) vfC05Result {
 		}
 	}
 	var gateTimedOut int32
+	gateAbort := make(chan struct{})
+	var abortOnce sync.Once
 	obs.handlerDelay = func(id string) {
 		if cs.Gate && secondId != "" {
 			if id == secondId {
 				gateOnce.Do(func() { close(gate2) })
 			}
-			if waiters[id] {
+			if waiters[id] && atomic.LoadInt32(&gateTimedOut) == 0 {
 				select {
 				case <-gate2:
+				case <-gateAbort: // another waiter has given up: the verdict is in, no point in waiting one by one
 				case <-time.After(15 * time.Second):
 					atomic.StoreInt32(&gateTimedOut, 1)
+					abortOnce.Do(func() { close(gateAbort) })
 				}
 			}
 		}
